@@ -20,6 +20,7 @@ def main():
     try:
         rc, o = sh(["git", "-C", "/repo", "worktree", "add", "-q", "--detach", wt, base])
         assert rc == 0, o
+        out["written_against"] = sh(["git", "-C", wt, "rev-parse", "--short=9", "HEAD"])[1].strip()
         env = dict(os.environ, PYTHONPATH=f"{wt}/src")
         demo = os.path.join(d, "demo.py")
         rc0, o0 = sh(["/venv/bin/python", demo], cwd=wt, env=env, timeout=900)
